@@ -683,3 +683,12 @@ M.contract('exactly_lib.cli.main_program:MainProgram.execute_test_case',
            and result._processor._mem_buff_size == self._mem_buff_size
            and result._settings is settings},
            raises_only=())
+
+
+# ------------------------------------------------------------------------------ what every case of a suite starts from
+# "environment changes ... never carry over from one case to the next": every case gets its environment from
+# `os_environ_getter`, which must hand out a NEW dict (the env instructions write into what they are given), and
+# the environment of the Exactly process itself is never written (frame).  Both are obligations of C11 / C04 on
+# the real tree; they carry C17 as well.  (After the seeded change C17-s5: `return os.environ`.)
+M.shared_checks = [('C11', 'default-environ'),
+                   ('C04', 'frame: os.environ is never written, chdir call sites are the known ones')]
